@@ -108,6 +108,8 @@ func (cs *gcpClientStream) SendMsg(m interface{}) error {
 			return err
 		}
 		cs.ClientStream = realCS
+		// A retry succeeded: the error of an earlier failed attempt no longer applies.
+		cs.initStreamErr = nil
 	}
 	cs.Unlock()
 	cs.cond.Broadcast()
